@@ -248,7 +248,8 @@ impl Tokenizer<'_> {
             '\n' => Err(KikiErr::Lex(current_index, Some(current))),
 
             _ => {
-                self.state = State::OuterAttribute(start, left_count, ByteIndex(end.0 + 1));
+                self.state =
+                    State::OuterAttribute(start, left_count, ByteIndex(end.0 + current.len_utf8()));
                 Ok(())
             }
         }
